@@ -87,6 +87,16 @@ def mkRun : Host → Int → List (Int × Block) → Option (List Step)
       | some (h', out) => (mkRun h' t rest).map (fun l => ⟨t, b, h, h', out, none⟩ :: l)
     else none
 
+/-- … with the destination of every immediate answer given -/
+def mkRunD : Host → Int → List (Int × Block × Option Nat) → Option (List Step)
+  | _, _, [] => some []
+  | h, T, (t, b, ad) :: rest =>
+    if T ≤ t ∧ (blockTime b = none ∨ blockTime b = some t) then
+      match h.step lower b with
+      | none => none
+      | some (h', out) => (mkRunD h' t rest).map (fun l => ⟨t, b, h, h', out, ad⟩ :: l)
+    else none
+
 /-- the link identity of a service of this host -/
 def sigma (s : Register.Svc) : Link.Svc := ⟨N.host, N.tyId (lower s.type), N.svcId (lower s.name)⟩
 
